@@ -7,7 +7,7 @@
 (* and every slice compared as a set of label->value maps, each printed    *)
 (* exactly once; label order inside a line per the sorting flag.           *)
 (***************************************************************************)
-EXTENDS AdfSem, AdfSyntax, Cli, Integers, Json, IOUtils
+EXTENDS AdfSem, AdfSyntax, Cli, CliFsOps, Integers, Json, IOUtils
 
 Rec == ndJsonDeserialize(IOEnv.TRACE)
 VARIABLE l
@@ -74,11 +74,33 @@ CheckPersist(r) ==
   /\ Report(r.hash_after = r.hash_before /\ r.changed_existing = <<>>, r.id, "C14", "cli-overwrote-existing-export")
   /\ PrintT(<<"INFO", l, r.id, "persist", 0, 0>>)
 
+\* a whole session in one directory, followed with CliFs!FsAfter from the abstract initial directory
+InitFs == [n \in {"a.adf", "b.adf", "note.txt"} |-> IF n = "note.txt" THEN <<"junk">> ELSE <<"adf", n>>]
+RECURSIVE FsWalk(_, _, _, _)
+FsWalk(r, i, mfs, prev) ==
+  IF i > Len(r.steps) THEN TRUE
+  ELSE LET s == r.steps[i]
+           run == [src |-> s.src, imp |-> s.imp, exp |-> s.exp]
+           after == FsAfter(mfs, run)
+       IN
+       \* C14: whatever name is typed, no file that existed before the invocation is changed or removed
+       /\ Report(\A n \in DOMAIN prev : n \in DOMAIN s.fs /\ s.fs[n] = prev[n], r.id, "C14", <<"cli-changed-existing-file", i, s.exp>>)
+       \* C14: an imported state answers like the ADF it was exported from
+       /\ (Readable(mfs, run) /\ s.imp) => Report(s.exit = 0 /\ s.out = r.refs[AdfOf(mfs, run)], r.id, "C14", <<"cli-import-answers-differ", i, s.src>>)
+       /\ (Readable(mfs, run) /\ ~s.imp) => Report(s.exit = 0 /\ s.out = r.refs[AdfOf(mfs, run)], r.id, "C15", <<"cli-answers-vary-between-runs", i, s.src>>)
+       \* model conformance (drift only): the directory after the invocation is the model's; unreadable sources are refused
+       /\ ((DOMAIN s.fs = DOMAIN after /\ (Readable(mfs, run) \/ s.exit # 0)) \/ PrintT(<<"DRIFT", l, r.id, <<"directory-after-invocation", i>> >>))
+       /\ FsWalk(r, i + 1, after, s.fs)
+CheckFs(r) == /\ Report(DOMAIN r.init = DOMAIN InitFs, r.id, "C14", "session-setup")
+              /\ FsWalk(r, 1, InitFs, r.init)
+              /\ PrintT(<<"INFO", l, r.id, "fs-session", Len(r.steps), 0>>)
+
 Init2 == l = 1
 Next2 == /\ l <= Len(Rec)
          /\ (CASE Rec[l].kind = "cli" -> CheckGood(Rec[l])
                [] Rec[l].kind = "cli_bad" -> CheckBad(Rec[l])
-               [] Rec[l].kind = "cli_persist" -> CheckPersist(Rec[l])) \in BOOLEAN
+               [] Rec[l].kind = "cli_persist" -> CheckPersist(Rec[l])
+               [] Rec[l].kind = "cli_fs" -> CheckFs(Rec[l])) \in BOOLEAN
          /\ l' = l + 1
          /\ UNCHANGED vars
 \* the machine variables of Cli are not used by the validator: pin them
